@@ -84,6 +84,9 @@ def _derives_from_staged(f, expr, depth=0):
         return True
     if isinstance(expr, ast.BoolOp):
         return all(_derives_from_staged(f, v, depth + 1) for v in expr.values)
+    if isinstance(expr, ast.IfExp):
+        return _derives_from_staged(f, expr.body, depth + 1) and _derives_from_staged(
+            f, expr.orelse, depth + 1)
     if isinstance(expr, (ast.List, ast.Tuple)) and not expr.elts:
         return True
     if isinstance(expr, ast.ListComp) and len(expr.generators) == 1:
@@ -124,6 +127,13 @@ def _root_defs(f, name):
         seen.add(nm)
         for d in _defs(f, nm):
             v = d.value
+            if isinstance(v, ast.IfExp):
+                # x = A if t else None : provenance is that of the non-None arms
+                arms = [b for b in (v.body, v.orelse)
+                        if not (isinstance(b, ast.Constant) and b.value is None)]
+                if arms and all(isinstance(b, ast.Name) for b in arms):
+                    work.extend(b.id for b in arms)
+                    continue
             if isinstance(v, ast.Name):
                 work.append(v.id)
             elif nm.startswith("__ret__") and isinstance(v, ast.Constant) and v.value is None:
@@ -239,6 +249,24 @@ def rule_P1(ctx):
                 else:
                     yield a
         gate_flat = set(_flat_(list(gate)))
+        # the offered task itself being truthy (a rendered task is a non-empty dict) is not a
+        # condition: collect the names the offered value goes by
+        offered = set()
+        for c, _a in empties:
+            arg_ = c.args[-1] if c.args else None
+            work_ = [arg_.id] if isinstance(arg_, ast.Name) else []
+            while work_:
+                nm_ = work_.pop()
+                if nm_ in offered:
+                    continue
+                offered.add(nm_)
+                for d_ in ast.walk(f.node):
+                    if isinstance(d_, ast.Assign) and any(
+                            isinstance(t_, ast.Name) and t_.id == nm_ for t_ in d_.targets):
+                        for x_ in ast.walk(d_.value):
+                            if isinstance(x_, ast.Name) and isinstance(d_.value, (ast.Name, ast.IfExp)):
+                                work_.append(x_.id)
+        gate_flat |= {("truthy", n_, None) for n_ in offered} | {("isnot", n_, None) for n_ in offered}
         ok_e = False
         worst = None
         for c, atoms in empties:
@@ -346,9 +374,15 @@ def rule_P2(ctx):
                 and not (isinstance(n_.value, ast.Constant) and n_.value.value is None)]
             bad_def = None
             kinds = set()
+            cases = []
             for d in ds:
-                v = d.value
-                datoms = _expand_bool_locals(f, fg, fg.atoms(d))
+                if isinstance(d.value, ast.IfExp):
+                    cases.append((d, d.value.body, list(fg.norm.conj(d.value.test, True))))
+                    cases.append((d, d.value.orelse, list(fg.norm.conj(d.value.test, False))))
+                else:
+                    cases.append((d, d.value, []))
+            for d, v, more in cases:
+                datoms = _expand_bool_locals(f, fg, list(fg.atoms(d)) + more)
                 if isinstance(v, (ast.List, ast.Tuple)) and not v.elts:
                     kinds.add("empty")
                     continue
@@ -400,31 +434,35 @@ def rule_P2(ctx):
                     "failed workflow"))
     # run_on_fail is written only next to a fail command
     n = 0
+    writes = []
     for e in effects_of(ctx):
         if e.path[-1:] == ("run_on_fail",) and e.path[:2] == ("WS", "staged"):
             n += 1
-            own = [a for q, a in e.guards if q == e.func.qualname]
-            flags = [a[1] for a in own if a[0] == "truthy"]
-            ok = False
-            for fl in flags:
-                for d in local_def(e.func.node, fl):
-                    if isinstance(d, ast.Assign) and _compares_with_fail(d.value):
-                        ok = True
-            inst = ("run_on_fail", e.func.qualname, norm_src(e.node))
-            if ok:
-                ok2, why2 = _siblings_only(e)
-                if not ok2:
-                    res.violated(inst, _f(
-                        "P2", e.func, e.node, norm_src(e.node),
-                        "run_on_fail is set on entries that are not the tasks staged by the same "
-                        "transition set as the fail command: %s" % why2))
-                    continue
-            if ok:
-                res.holds(inst)
-            else:
+            writes.append((e,) + _classify_rof_write(ctx, prog, e))
+    # a write inside the searching loop under the flag (entries visited after `fail`) and a
+    # write at the fail command over the entries collected before it complement each other
+    paired = {}
+    for e, kind, why in writes:
+        paired.setdefault(e.func.qualname, set()).add(kind)
+    for e, kind, why_not in writes:
+        inst = ("run_on_fail", e.func.qualname, norm_src(e.node))
+        kinds = paired[e.func.qualname]
+        ok = kind == "after" or (kind in ("inloop", "atfail") and {"inloop", "atfail"} <= kinds)
+        if ok:
+            ok2, why2 = _siblings_only(e, allow_before=(kind == "atfail"))
+            if not ok2:
                 res.violated(inst, _f(
                     "P2", e.func, e.node, norm_src(e.node),
-                    "run_on_fail is set without a fail command in the same transition set"))
+                    "run_on_fail is set on entries that are not the tasks staged by the same "
+                    "transition set as the fail command: %s" % why2))
+                continue
+            res.holds(inst, kind)
+        else:
+            if kind == "atfail":
+                why_not = "run_on_fail is set at the fail command on the entries collected so " \
+                          "far only: targets visited after `fail` are not flagged (order of " \
+                          "the transitions)"
+            res.violated(inst, _f("P2", e.func, e.node, norm_src(e.node), why_not))
     # the early return of the gate returns nothing
     for r in ast.walk(f.node):
         if isinstance(r, ast.Return) and r.value is not None and loops and textually_before(r, loops[0]):
@@ -444,6 +482,61 @@ def rule_P2(ctx):
                 res.violated(inst, _f("P2", f, r, norm_src(r),
                                       "the gate's early return may return tasks"))
     return res
+
+
+def _fail_atom(a):
+    return (a[0] == "==" and a[2] == "fail") or (
+        a[0] == "in" and isinstance(a[2], (set, frozenset, tuple, list)) and set(a[2]) == {"fail"})
+
+
+def _classify_rof_write(ctx, prog, e):
+    """('after' | 'inloop' | 'atfail' | 'none', reason).  after: under a flag that records a
+    fail command of a taken transition, outside the loop that looks for it.  inloop: same flag
+    but inside that loop.  atfail: directly under `target == "fail"` of a taken transition."""
+    own = [a for q, a in e.guards if q == e.func.qualname]
+    flags = [a[1] for a in own if a[0] == "truthy"]
+    why_not = "run_on_fail is set without a fail command in the same transition set"
+    fgf = FuncGuards(prog, e.func)
+    kind = "none"
+    for fl in flags:
+        for d in local_def(e.func.node, fl):
+            if not isinstance(d, ast.Assign):
+                continue
+            records = _compares_with_fail(d.value) or (
+                isinstance(d.value, ast.Constant) and d.value.value is True
+                and any(_fail_atom(a) for a in fgf.atoms(d)))
+            if not records:
+                continue
+            # the fail command counts only on a transition that was taken: the flag
+            # is raised under this transition's criteria
+            taken, _w = _criteria_guard(ctx, e.func, fgf, d, chain_guards(ctx, e.func, d))
+            if not taken:
+                why_not = "the fail command is looked for among all outgoing " \
+                          "transitions, not among the ones whose criteria were met"
+                continue
+            # ... and it is only known after the whole transition set was processed:
+            # setting run_on_fail inside the loop that still looks for the fail
+            # command depends on the order in which the transitions are visited
+            lp_ = d
+            while lp_ is not None and not isinstance(lp_, ast.For):
+                lp_ = getattr(lp_, "_parent", None)
+            if lp_ is not None and any(e.node is x for x in ast.walk(lp_)):
+                if any(_fail_atom(a) for a in own):
+                    continue
+                why_not = "run_on_fail is set inside the loop that is still looking " \
+                          "for the fail command: only targets visited after `fail` " \
+                          "are flagged (order of the transitions)"
+                if kind == "none":
+                    kind = "inloop"
+                continue
+            return "after", ""
+    if kind == "none" and any(_fail_atom(a) for a in own):
+        taken, _w = _criteria_guard(ctx, e.func, fgf, e.node, chain_guards(ctx, e.func, e.node))
+        if taken:
+            return "atfail", why_not
+        why_not = "the fail command is looked for among all outgoing transitions, not among " \
+                  "the ones whose criteria were met"
+    return kind, why_not
 
 
 _PROG = {}
@@ -494,7 +587,7 @@ def _all_defs_staged(f, name, seen=None):
     return found
 
 
-def _siblings_only(e):
+def _siblings_only(e, allow_before=False):
     """The entry whose run_on_fail flag is set is drawn from a local list that only ever receives
     entries staged in this activation (results of add_staged_task / get_staged_task)."""
     f = e.func
@@ -529,8 +622,14 @@ def _siblings_only(e):
         if isinstance(n, ast.Assign) and _compares_with_fail(n.value):
             flags |= {t.id for t in n.targets if isinstance(t, ast.Name)}
     fg = FuncGuards(e_prog(e), f)
+    for n in ast.walk(f.node):
+        if isinstance(n, ast.Assign) and isinstance(n.value, ast.Constant) and \
+                n.value.value is True and any(_fail_atom(a) for a in fg.atoms(n)):
+            flags |= {t.id for t in n.targets if isinstance(t, ast.Name)}
     for c in apps:
         for a_ in fg.atoms(c):
+            if allow_before and a_[0] == "falsy" and a_[1] in flags:
+                continue
             if a_[0] in ("truthy", "falsy") and a_[1] in flags:
                 # the flag is only final after the whole transition set was processed
                 return False, "siblings are collected only %s the fail command was seen, which " \
@@ -1541,12 +1640,22 @@ def rule_P8(ctx):
                             "not found in conducting")
     for f, stmt, sub, avail in sites:
         E = sub.left
+        # a local copy of the rendered value stands for what it was copied from
+        node = stmt
+        for _hop in range(3):
+            if not isinstance(E, ast.Name):
+                break
+            ds_ = _defs(f, E.id)
+            if len(ds_) == 1 and isinstance(ds_[0].value, (ast.Name, ast.Subscript, ast.Attribute)) \
+                    and textually_before(ds_[0], stmt):
+                E, node = ds_[0].value, ds_[0]
+            else:
+                break
         etxt = unparse(E)
         names = {x.id for x in ast.walk(E) if isinstance(x, ast.Name)}
         # statements that can change E before the subtraction: in the enclosing blocks'
         # prefixes (outermost first), those that mention E
         chain = []
-        node = stmt
         while node is not None and node is not f.node:
             parent = getattr(node, "_parent", None)
             for fld in ("body", "orelse", "finalbody"):
@@ -1614,6 +1723,21 @@ def rule_P8(ctx):
                     isinstance(t, ast.Subscript) and isinstance(t.slice, ast.Constant)
                     and t.slice.value == "actions" for t in n.targets) and textually_before(stmt, n):
                 offers.append(n)
+        # an offer of a local (a result temporary): its definitions after the window
+        # computation are the offers, each under its own guards
+        in_blk = {id(x) for x in ast.walk(blk)}
+        for _hop in range(3):
+            grown = []
+            for n in offers:
+                if isinstance(n.value, ast.Name):
+                    ds_ = [d for d in _defs(f, n.value.id) if id(d) in in_blk]
+                    if ds_:
+                        grown.extend(ds_)
+                        continue
+                grown.append(n)
+            if len(grown) == len(offers) and all(a is b for a, b in zip(grown, offers)):
+                break
+            offers = grown
         avail_disp = avail.split("__")[0]
         inst2 = (f.qualname, "window " + avail_disp)
         if not offers:
@@ -1647,6 +1771,21 @@ def rule_P8(ctx):
                     if isinstance(x, ast.Name) and x.id not in seen_:
                         seen_.add(x.id)
                         work_.extend(d.value for d in _defs(f, x.id))
+                        work_.extend(d.value for d in ast.walk(f.node) if isinstance(d, ast.Assign)
+                                     and isinstance(d.value, ast.Name) and any(
+                                         isinstance(t_, ast.Name) and t_.id == x.id
+                                         for t_ in d.targets))
+                        # a list filled by appends: what is appended, and under which tests
+                        for c_ in calls_in(f.node):
+                            if callee_name(c_) in ("append", "extend") and isinstance(
+                                    c_.func.value, ast.Name) and c_.func.value.id == x.id:
+                                work_.extend(c_.args)
+                                up_ = c_
+                                while up_ is not None and up_ is not f.node:
+                                    par_ = getattr(up_, "_parent", None)
+                                    if isinstance(par_, ast.If) and up_ in par_.body:
+                                        work_.append(par_.test)
+                                    up_ = par_
             by_status = False
             for e_ in closure:
                 for c_ in ast.walk(e_):
@@ -1673,6 +1812,59 @@ def rule_P8(ctx):
             res.violated(inst2, _f("P8", f, stmt, "offer under the window " + avail_disp, problems[0]))
         else:
             res.holds(inst2)
+    # (c) the concurrency a definition asks for reaches the window whatever its value: where
+    # the rendered task gets its 'concurrency' entry, no branch tests the declared / rendered
+    # value for truth (a literal or rendered 0 would be dropped - 'no limit' - instead of being
+    # normalised to 1 like every other non-positive value)
+    gt = prog.find_function("conducting.WorkflowConductor.get_task")
+    if gt is not None:
+        gfg = FuncGuards(prog, gt)
+        stores = [n for n in ast.walk(gt.node) if isinstance(n, ast.Assign) and any(
+            isinstance(t, ast.Subscript) and isinstance(t.slice, ast.Constant)
+            and t.slice.value == "concurrency" for t in n.targets)]
+        tainted = set()
+        for _ in range(4):
+            for n in ast.walk(gt.node):
+                if isinstance(n, ast.Assign):
+                    txt = unparse(n.value)
+                    hot = "'concurrency'" in txt.replace('"', "'") or any(
+                        isinstance(x, ast.Name) and x.id in tainted for x in ast.walk(n.value))
+                    if hot:
+                        tainted |= {t.id for t in n.targets if isinstance(t, ast.Name)}
+        for st in stores:
+            inst = (gt.qualname, "store of the rendered concurrency")
+            bad = None
+            sites = [st]
+            if isinstance(st.value, ast.Name):
+                work_, seen_ = [st.value.id], set()
+                while work_:
+                    nm_ = work_.pop()
+                    if nm_ in seen_:
+                        continue
+                    seen_.add(nm_)
+                    for d_ in ast.walk(gt.node):
+                        if isinstance(d_, ast.Assign) and any(
+                                isinstance(t_, ast.Name) and t_.id == nm_ for t_ in d_.targets):
+                            sites.append(d_)
+                            if isinstance(d_.value, ast.Name):
+                                work_.append(d_.value.id)
+            all_alts = [alt for site in sites
+                        for alt in expand_alternatives(gt, gfg, gfg.atoms(site))]
+            for alt in all_alts:
+                for a in alt:
+                    if a[0] in ("truthy", "falsy") and isinstance(a[1], str) and (
+                            a[1] in tainted or "'concurrency'" in a[1].replace('"', "'")):
+                        bad = a
+            if bad is None:
+                res.holds(inst)
+            else:
+                res.violated(inst, _f(
+                    "P8", gt, st, "truth test on the declared concurrency",
+                    "whether the rendered task gets its concurrency depends on the truth of %s: "
+                    "a declared concurrency of 0 is treated as 'no limit' instead of being "
+                    "normalised to 1" % fmt_atoms([bad])[0]))
+        if not stores:
+            res.note("get_task: no store of 'concurrency' found")
     return res
 
 
@@ -1925,4 +2117,63 @@ def rule_P12(ctx):
                 "the descendants of a rerun task lose their term flag only under %s: for the "
                 "other rerun tasks superseded records stay terminal (they feed the final "
                 "context and are picked up again by a later default rerun)" % fmt_atoms(extra)))
+    return res
+
+
+# ====================================================================== P13
+def rule_P13(ctx):
+    """A status request reaches every active task: the task machine is driven for each of them
+    in a plain loop.  Driving it from inside any() / all() / next() stops at the first task for
+    which the call returns something true (false), so the remaining active tasks never see the
+    pause / cancel request - their actions keep the workflow 'pausing' for ever."""
+    res = RuleResult("P13", "the request event is pushed to every active task: the task "
+                            "machine is not driven from a short-circuiting any()/all()/next()")
+    prog = ctx.prog
+    rws = prog.function("conducting.WorkflowConductor.request_workflow_status")
+    cls = prog.cls("conducting.WorkflowConductor")
+
+    def drives_machine(node, depth=0):
+        for c in ast.walk(node):
+            if not isinstance(c, ast.Call):
+                continue
+            if callee_name(c) == "process_event" and "TaskStateMachine" in unparse(c.func):
+                return True
+            m = prog.lookup_method(cls, callee_name(c) or "")
+            if m is not None and depth < 3 and isinstance(c.func, ast.Attribute) and isinstance(
+                    c.func.value, ast.Name) and c.func.value.id in ("self", "cls"):
+                if drives_machine(m.node, depth + 1):
+                    return True
+        return False
+
+    scope = [rws] + [m for m in cls.methods.values()
+                     if m.name.startswith("_") and not m.name.startswith("__")]
+    pushes = 0
+    for f in scope:
+        for n in ast.walk(f.node):
+            if isinstance(n, ast.Call) and isinstance(n.func, ast.Name) and n.func.id in (
+                    "any", "all", "next") and n.args and isinstance(
+                    n.args[0], (ast.GeneratorExp, ast.ListComp)) and drives_machine(n.args[0].elt):
+                short = isinstance(n.args[0], ast.GeneratorExp)
+                inst = (f.qualname, norm_src(n))
+                if short:
+                    res.violated(inst, _f(
+                        "P13", f, n, "short-circuiting broadcast: " + norm_src(n),
+                        "%s() over a generator drives the task machine: it stops at the first "
+                        "task for which the call is true/false, the other active tasks never "
+                        "receive the request" % n.func.id))
+                else:
+                    res.holds(inst, "list comprehension: evaluated for every task")
+                pushes += 1
+            if isinstance(n, ast.ListComp) and drives_machine(n.elt) and not (
+                    isinstance(getattr(n, "_parent", None), ast.Call)
+                    and getattr(n._parent.func, "id", "") in ("any", "all", "next")):
+                pushes += 1
+                res.holds((f.qualname, norm_src(n)), "list comprehension: evaluated for every task")
+            if isinstance(n, ast.For) and drives_machine(ast.Module(body=n.body, type_ignores=[])):
+                if f is rws or prog.is_dead_helper(f) is False:
+                    pushes += 1
+                    res.holds((f.qualname, norm_src(n)), "plain loop")
+    if not pushes:
+        raise AnalysisError("request_workflow_status no longer pushes the event to the active "
+                            "tasks")
     return res
